@@ -20,7 +20,12 @@ pub fn export(db: &DbIndex) -> Index {
 fn export_modules(db: &DbIndex) -> Vec<Module> {
     let type_index = db.get_type_index();
     let module_index = db.get_module_index();
-    let modules = module_index.get_module_infos();
+    // the index hands these out in hash-map order: sort, so that exporting the same workspace
+    // twice gives the same bytes
+    let mut modules = module_index.get_module_infos();
+    modules.sort_by(|a, b| {
+        (a.full_module_name.as_str(), a.file_id.id).cmp(&(b.full_module_name.as_str(), b.file_id.id))
+    });
     let vfs = db.get_vfs();
 
     modules
@@ -67,7 +72,8 @@ fn export_modules(db: &DbIndex) -> Vec<Module> {
 fn export_types(db: &DbIndex) -> Vec<Type> {
     let type_index = db.get_type_index();
     let module_index = db.get_module_index();
-    let types = type_index.get_all_types();
+    let mut types = type_index.get_all_types();
+    types.sort_by(|a, b| a.get_full_name().cmp(b.get_full_name()));
 
     types
         .into_iter()
@@ -96,7 +102,15 @@ fn export_globals(db: &DbIndex) -> Vec<Global> {
     let module_index = db.get_module_index();
     let type_index = db.get_type_index();
     let vfs = db.get_vfs();
-    let globals = global_index.get_all_global_decl_ids();
+    let mut globals = global_index.get_all_global_decl_ids();
+    globals.sort_by_key(|global| {
+        let name = db
+            .get_decl_index()
+            .get_decl(global)
+            .map(|decl| decl.get_name().to_string())
+            .unwrap_or_default();
+        (name, global.file_id.id, u32::from(global.position))
+    });
 
     globals
         .into_iter()
